@@ -6,7 +6,7 @@ CHECK = {'level': 'exploration',
          'InterceptPeerDial/AddrDial/Accept/Secured(in,out), listBannedPeers and the stored score; untimed (expiry 1 h) and timed (expiry 1-2 s, sweep '
          '50-200 ms, sleeps, wait-for-expiry, 24 sequences in parallel per rapid case) plus concurrent writers/readers. (b) end-to-end scenarios of 2-4 '
          'started p2p.Connections on loopback IPs, distinct or (see below) shared (127.0.0.1-9, ::1; security none/tls/noise; rate limit 2-6 with penalty 10-120): '
-         'undecodable and unknown-procedure request/response envelopes on raw streams, bursts within/exactly at/above the rate limit, handler-issued '
+         'undecodable and unknown-procedure request/response envelopes on raw streams (oracle: the offence must BAN AT ONCE - pkg/p2p documents banRemotePeer = addPenalty(MaxPenaltyScore) + disconnect for them -, i.e. the stored score of a not-yet-banned IP must rise to >= the threshold in this one step, the IP be listed and the peer disconnected; a smaller rise is a violation, it is no longer taken over into the model as "some penalty"), bursts within/exactly at/above the rate limit, handler-issued '
          'ApplyPenalty/BanPeer, blacklisted peers, a peer without listen addresses (dial-only, connected inbound from 127.0.0.1 which it never '
          'announces; outbound attempts towards its IP probed against a closed port), dials in both directions during and after the ban, third parties, legal-only traffic across '
          'rate-window resets. One scenario in three (quick tier too) has TWO OR MORE PEERS ON ONE IP ADDRESS (2-4 of 3-4 nodes on the same 127.0.0.x / all three on ::1, '
@@ -87,6 +87,8 @@ CHECK = {'level': 'exploration',
  'assumptions': ['an IPv4-mapped IPv6 address is the same IP as the IPv4 address',
                  'per gate refusal: InterceptAddrDial (outbound), InterceptAccept and InterceptSecured(inbound) must each refuse a banned/blacklisted IP',
                  'the score of an IP is not asserted while it is banned',
+                 'ban threshold 100 (MaxPenaltyScore) and retry budget 3 (messageMaxRetries, used by the late-response scenarios) are the documented protocol values; the accessors p2p.VerifMaxPenaltyScore / p2p.VerifMaxRetries() are pinned to them in TestMain (a changed constant fails every process of the package instead of moving the oracle)',
+                 'envelope offences (undecodable envelope, unregistered procedure, on the request or the response protocol) are documented by pkg/p2p as an immediate ban (banRemotePeer); the amount by which the score rises is not asserted beyond "reaches the threshold in one step"',
                  'several peers on one IP: the peer whose penalty leaves the IP total at/above the threshold must be disconnected at that penalty '
                  '(asserted when the stored total is seen to change to >= threshold while that peer was connected); that OTHER peers of the IP keep '
                  'an already open connection until their own next penalty is the engine\'s behaviour and is recorded, not asserted',
